@@ -76,8 +76,13 @@ class Unit:
         cleanup = ""
         if f.ctor and not fired.get("ctor.delegating") and f.ctor in self.ctor_cleanup:
             cleanup = self.ctor_cleanup[f.ctor]
-        out = "/* %s:%d  %s */\n#undef NITRO_DFLT\n#define NITRO_DFLT %s\n#undef NITRO_CLEANUP\n#define NITRO_CLEANUP %s\n%s\n{%s}\n" % (
-            f.rel, f.line, " ".join(d["header"].split()), dflt, cleanup, f.c, text)
+        # rule D2': an exception leaving a noexcept function calls std::terminate
+        is_noexcept = "noexcept" in d["quals"] or re.search(r"\bnoexcept\b", d["header"]) is not None
+        f.is_noexcept = is_noexcept
+        excmap = "EXC_TERMINATE" if is_noexcept else "(e)"
+        out = ("/* %s:%d  %s %s */\n#undef NITRO_DFLT\n#define NITRO_DFLT %s\n#undef NITRO_CLEANUP\n#define NITRO_CLEANUP %s\n"
+               "#undef NITRO_EXC_MAP\n#define NITRO_EXC_MAP(e) %s\n%s\n{%s}\n") % (
+            f.rel, f.line, " ".join(d["header"].split()), " ".join(d["quals"]), dflt, cleanup, excmap, f.c, text)
         f.text = text
         return out
 
